@@ -1,8 +1,353 @@
-//! Owned-value world (C12) operations.
-use std::sync::Arc;
-use crate::ctx::*;
-use crate::spec::*;
+//! Owned-value world (C12): requests for single-use and multi-use instrumented return values,
+//! racing from several simulated threads; conservation oracle over construction / clone / drop
+//! events.
 
-pub fn exec_op(_run: &Arc<RunCtx>, _tid: u8, _idx: u16, _op: &Op) -> Result<(), Box<dyn std::any::Any + Send>> {
-    unimplemented!("owning world")
+use std::collections::BTreeMap;
+use std::panic::{catch_unwind, AssertUnwindSafe};
+use std::sync::Arc;
+
+use crate::corpus::*;
+use crate::ctx::*;
+use crate::gen::gen_sched;
+use crate::oracle::{v, Violation};
+use crate::props::{base_stats, Checked, RunStats};
+use crate::rng::Rng;
+use crate::spec::*;
+use crate::values::*;
+use crate::world::{self, *};
+
+/// what a successful request delivered: (tracked id, shape ok)
+fn request(u: &unimock::Unimock, which: OwnKind, x: u8, hold: &mut Vec<Box<dyn std::any::Any>>) -> (u32, bool) {
+    match which {
+        OwnKind::Single => {
+            let t = u.own_single(x);
+            let r = (t.id, t.intact());
+            hold.push(Box::new(t));
+            r
+        }
+        OwnKind::Multi => {
+            let t = u.own_multi(x);
+            let r = (t.id, t.intact());
+            hold.push(Box::new(t));
+            r
+        }
+        OwnKind::Opt => match u.own_opt(x) {
+            Some(t) => {
+                let r = (t.id, t.intact());
+                hold.push(Box::new(t));
+                r
+            }
+            None => (0, false),
+        },
+        OwnKind::Res => match u.own_res(x) {
+            Err(t) => {
+                let r = (t.id, t.intact());
+                hold.push(Box::new(t));
+                r
+            }
+            Ok(_) => (0, false),
+        },
+        OwnKind::Tup => {
+            let (n, t) = u.own_tup(x);
+            let r = (t.id, t.intact() && *n == 7);
+            hold.push(Box::new(t));
+            r
+        }
+        OwnKind::Tup1 => {
+            let (n, t) = u.own_tup1(x);
+            let r = (t.id, t.intact() && *n == 7);
+            hold.push(Box::new(t));
+            r
+        }
+        OwnKind::Vec => {
+            let v = u.own_vec(x);
+            let shape_ok = v.len() == 3 && matches!(v[0], Ok(n) if *n == 1) && v[1].is_err() && matches!(v[2], Ok(n) if *n == 3);
+            let mut id = 0;
+            for e in v {
+                if let Err(t) = e {
+                    id = t.id;
+                    hold.push(Box::new(t));
+                }
+            }
+            (id, shape_ok)
+        }
+    }
+}
+
+pub fn exec_op(run: &Arc<RunCtx>, tid: u8, idx: u16, op: &Op) -> Result<(), Box<dyn std::any::Any + Send>> {
+    let Op::Own { slot, which, x, catch, die_with_value, fault } = op else { unreachable!() };
+    let mock = mock_of(run, *slot);
+    let start = begin_op(run, tid, idx, *fault, mock);
+    with_tl(|t| t.cur_val = 2_000_000 + (tid as u32) * 1000 + idx as u32);
+    let Some(h) = get_slot(run, *slot) else {
+        end_op(run, tid, idx, start, OpResult::Skipped("slot empty".into()), None, None);
+        return Ok(());
+    };
+    // values received stay alive on this frame until the end of the operation
+    let mut hold: Vec<Box<dyn std::any::Any>> = vec![];
+    let r = catch_unwind(AssertUnwindSafe(|| request(&h, *which, *x, &mut hold)));
+    release_handle(run, *slot, h);
+    match r {
+        Ok((id, shape_ok)) => {
+            let res = if shape_ok { OpResult::Value(id as u64) } else { OpResult::Info(format!("bad shape (tracked id {id})")) };
+            end_op(run, tid, idx, start, res, None, None);
+            if *die_with_value {
+                // the receiving thread dies while it owns the value: `hold` is dropped by the unwinding
+                let _keep = hold;
+                std::panic::resume_unwind(Box::new(UserFault::Body));
+            }
+            drop(hold);
+            Ok(())
+        }
+        Err(p) => {
+            let res = match classify_panic(p.as_ref()) {
+                Outcome::MockPanic(s) => OpResult::Panicked(s),
+                Outcome::UserPanic(f) => OpResult::UserPanicked(f),
+                _ => OpResult::Done,
+            };
+            end_op(run, tid, idx, start, res, None, None);
+            if *catch {
+                Ok(())
+            } else {
+                Err(p)
+            }
+        }
+    }
+}
+
+fn kind_of(sp: &Special) -> Option<(OwnKind, u32, bool)> {
+    // (request kind, original id, single-use)
+    match sp {
+        Special::OwnSingle { id, .. } => Some((OwnKind::Single, *id, true)),
+        Special::OwnMulti { id, .. } => Some((OwnKind::Multi, *id, false)),
+        Special::OwnOpt { id } => Some((OwnKind::Opt, *id, true)),
+        Special::OwnRes { id } => Some((OwnKind::Res, *id, true)),
+        Special::OwnTup { id, .. } => Some((OwnKind::Tup, *id, false)),
+        Special::OwnTup1 { id } => Some((OwnKind::Tup1, *id, true)),
+        Special::OwnVec { id } => Some((OwnKind::Vec, *id, true)),
+        _ => None,
+    }
+}
+
+pub fn gen_c12(base_seed: u64, batch: &str, run: u64, rng: &mut Rng) -> Scenario {
+    let faults = batch == "faults";
+    let mut pool: Vec<Special> = vec![
+        Special::OwnSingle { ordered: rng.chance(1, 3), once: rng.chance(1, 2), then_answers: rng.chance(1, 4), id: 101 },
+        Special::OwnMulti {
+            quant: *rng.pick(&[Quant::N(1), Quant::N(2), Quant::N(3), Quant::AtLeast(1), Quant::AtLeast(2), Quant::Unq]),
+            each_call: rng.chance(1, 2),
+            id: 102,
+        },
+        Special::OwnOpt { id: 103 },
+        Special::OwnRes { id: 104 },
+        Special::OwnTup { quant: *rng.pick(&[Quant::N(2), Quant::N(3), Quant::AtLeast(1), Quant::Unq]), id: 105 },
+        Special::OwnTup1 { id: 106 },
+        Special::OwnVec { id: 107 },
+    ];
+    // OwnMulti through some_call needs an explicit multi-use quantifier
+    if let Special::OwnMulti { quant, each_call, .. } = &mut pool[1] {
+        if !*each_call && matches!(quant, Quant::Unq | Quant::Once) {
+            *quant = Quant::N(2);
+        }
+    }
+    rng.shuffle(&mut pool);
+    pool.truncate(rng.range(1, 3));
+    let cfg = Config { specials: pool.clone(), ..Default::default() };
+    let n_threads = rng.range(1, 4);
+    let mut threads: Vec<Vec<Op>> = vec![vec![]; n_threads];
+    let share_original = rng.chance(1, 3);
+    for t in 1..n_threads {
+        threads[0].push(Op::Clone { src: 0, dst: t as u8 });
+    }
+    let prelude = threads[0].len();
+    for t in 0..n_threads {
+        let mut dying = false;
+        if faults && t != 0 && rng.chance(1, 4) {
+            // this thread owns its clone on its stack and may die holding a value
+            threads[t].push(Op::Hold { slot: t as u8 });
+            dying = true;
+        }
+        let n = rng.usize(4);
+        for _ in 0..n {
+            let (which, _, _) = kind_of(rng.pick(&pool)).unwrap();
+            let slot = if t == 0 || share_original || dying { 0 } else { t as u8 };
+            let die = dying && rng.chance(1, 2);
+            let fault = if faults && rng.chance(1, 6) { Some(Fault::ClonePanic) } else { None };
+            threads[t].push(Op::Own { slot, which, x: rng.below(4) as u8, catch: true, die_with_value: die, fault });
+        }
+    }
+    if n_threads > 1 {
+        threads[0].push(Op::Wait { mask: 0xfe });
+    }
+    for t in 1..n_threads {
+        threads[0].push(Op::Drop { slot: t as u8 });
+    }
+    threads[0].push(if rng.chance(1, 2) { Op::Drop { slot: 0 } } else { Op::Verify { slot: 0 } });
+    Scenario {
+        prop: "C12".into(),
+        base_seed,
+        run,
+        batch: batch.into(),
+        config: cfg,
+        config2: None,
+        threads,
+        sched: gen_sched(rng, true),
+        knobs: vec![("prelude".into(), prelude as i64)],
+    }
+}
+
+pub fn check_c12(scn: &Scenario) -> Checked {
+    let res = world::run(scn);
+    let mut stats: RunStats = base_stats(scn, &res);
+    if res.timed_out || res.sched.deadlock {
+        return Checked { violations: vec![], stats, harness_error: Some("run timed out or deadlocked".into()) };
+    }
+    if let Some(e) = &res.build_error {
+        return Checked { violations: vec![], stats, harness_error: Some(format!("mock construction failed: {e}")) };
+    }
+    let mut violations: Vec<Violation> = vec![];
+    let log = &res.log;
+    let mut created: BTreeMap<u32, u32> = Default::default();
+    let mut drops: BTreeMap<u32, Vec<&TrackEv>> = Default::default();
+    let mut clones_of: BTreeMap<u32, Vec<u32>> = Default::default();
+    for e in &log.track {
+        match e.kind {
+            TrackKind::Created => *created.entry(e.id).or_default() += 1,
+            TrackKind::ClonedFrom(o) => {
+                *created.entry(e.id).or_default() += 1;
+                clones_of.entry(o).or_default().push(e.id);
+            }
+            TrackKind::Dropped => drops.entry(e.id).or_default().push(e),
+        }
+    }
+    // teardown windows (any instance): the stored values live in the shared state
+    let mut teardown: Vec<(u64, u64)> = vec![];
+    for o in &log.ops {
+        if let Some(Op::Drop { .. } | Op::Verify { .. } | Op::Report { .. }) = scn.threads.get(o.thread as usize).and_then(|t| t.get(o.index as usize)) {
+            if !matches!(o.result, OpResult::Skipped(_)) {
+                teardown.push((o.start_step, o.end_step));
+            }
+        }
+    }
+    // thread-end drops of held instances (recorded with index >= ops.len())
+    for o in &log.ops {
+        if o.index as usize >= scn.threads.get(o.thread as usize).map(|t| t.len()).unwrap_or(0) {
+            teardown.push((o.start_step, o.end_step));
+        }
+    }
+    let dying_windows: Vec<u64> = vec![];
+    let _ = dying_windows;
+    // every constructed value (originals, clones, fresh answers) is dropped exactly once
+    for (id, n) in &created {
+        let d = drops.get(id).map(|d| d.len()).unwrap_or(0);
+        if *n != 1 || d != 1 {
+            violations.push(v("C12", "dropped-exactly-once", "conservation", format!("value {id}: constructed {n} time(s), dropped {d} time(s)")));
+            break;
+        }
+    }
+    for sp in &scn.config.specials {
+        let Some((which, id, single)) = kind_of(sp) else { continue };
+        let then_answers = matches!(sp, Special::OwnSingle { then_answers: true, .. });
+        // requests for this method, in time order
+        let mut reqs: Vec<&OpRec> = log
+            .ops
+            .iter()
+            .filter(|o| matches!(scn.threads.get(o.thread as usize).and_then(|t| t.get(o.index as usize)), Some(Op::Own { which: w, .. }) if *w == which))
+            .filter(|o| !matches!(o.result, OpResult::Skipped(_)))
+            .collect();
+        reqs.sort_by_key(|o| o.start_step);
+        let delivered: Vec<&&OpRec> = reqs.iter().filter(|o| matches!(o.result, OpResult::Value(val) if val as u32 == id)).collect();
+        let key = format!("{which:?}");
+        for o in &reqs {
+            if let OpResult::Info(msg) = &o.result {
+                violations.push(v("C12", "request-panics-or-delivers-whole-value", key.clone(), format!("a request returned a malformed composite instead of panicking: {msg}")));
+                break;
+            }
+        }
+        if single {
+            if delivered.len() > 1 {
+                violations.push(v("C12", "single-use-delivered-once", key.clone(), format!("single-use value {id} was handed to {} callers", delivered.len())));
+            }
+            for o in &reqs {
+                // a request that started after the value had been handed out must panic (or, with a
+                // trailing then().answers(..), get a fresh value - never the stored one again)
+                let after_delivery = delivered.iter().any(|d| d.end_step < o.start_step);
+                if after_delivery {
+                    let ok = match &o.result {
+                        OpResult::Panicked(_) => true,
+                        OpResult::Value(val) => then_answers && *val as u32 != id,
+                        OpResult::UserPanicked(_) => true,
+                        _ => false,
+                    };
+                    if !ok {
+                        violations.push(v("C12", "later-requests-panic", key.clone(), format!("request after the single-use value {id} was handed out: {:?}", o.result)));
+                        break;
+                    }
+                }
+            }
+            if clones_of.contains_key(&id) {
+                violations.push(v("C12", "single-use-never-cloned", key.clone(), format!("single-use value {id} was cloned")));
+            }
+        } else {
+            // repeated use: every delivery is a clone of the stored value; the stored value stays
+            let mut bound = match sp {
+                Special::OwnMulti { quant, .. } | Special::OwnTup { quant, .. } => match quant {
+                    Quant::N(n) => Some(*n),
+                    Quant::Once => Some(1),
+                    _ => None,
+                },
+                _ => None,
+            };
+            if let Special::OwnMulti { each_call: false, quant: Quant::Unq | Quant::Once, .. } = sp {
+                bound = Some(2);
+            }
+            let my_clones = clones_of.get(&id).cloned().unwrap_or_default();
+            let mut successes = 0u32;
+            for (k, o) in reqs.iter().enumerate() {
+                match &o.result {
+                    OpResult::Value(val) => {
+                        successes += 1;
+                        if !my_clones.contains(&(*val as u32)) {
+                            violations.push(v("C12", "repeated-use-delivers-clones", key.clone(), format!("delivery #{} of the multi-use value {id} handed out {val}, which is not a clone of it (clones: {my_clones:?})", k + 1)));
+                            break;
+                        }
+                    }
+                    OpResult::Panicked(msg) => {
+                        // within the quantified count (or unbounded): must not fail
+                        let sequential = reqs.iter().all(|p| p.end_step < o.start_step || p.start_step >= o.start_step);
+                        let within = bound.map(|b| (k as u32) < b).unwrap_or(true);
+                        if within && sequential && msg.contains("Cannot return value more than once") {
+                            violations.push(v("C12", "repeated-use-keeps-the-original", key.clone(), format!("request #{} for the multi-use value {id} failed: {msg}", k + 1)));
+                            break;
+                        }
+                    }
+                    _ => {}
+                }
+            }
+            let _ = successes;
+            // the stored original is released only by a teardown (or by the harness at the end)
+            if let Some(d) = drops.get(&id).and_then(|d| d.first()) {
+                let ok = d.step == u64::MAX || teardown.iter().any(|(s, e)| *s <= d.step && d.step <= *e) || d.panicking;
+                if !ok {
+                    violations.push(v("C12", "stored-value-intact-until-teardown", key.clone(), format!("the stored multi-use value {id} was dropped at step {} outside any teardown", d.step)));
+                }
+            }
+        }
+    }
+    // probes
+    let p = |st: &mut RunStats, k: &str, hit: bool| {
+        if hit {
+            *st.probes.entry(k.to_string()).or_default() += 1;
+        }
+    };
+    let own_ops: Vec<&OpRec> = log.ops.iter().filter(|o| matches!(scn.threads.get(o.thread as usize).and_then(|t| t.get(o.index as usize)), Some(Op::Own { .. }))).collect();
+    let overlapping = own_ops.iter().any(|a| own_ops.iter().any(|b| a.thread != b.thread && a.start_step < b.end_step && b.start_step < a.end_step));
+    p(&mut stats, "requests_overlapped_in_time", overlapping);
+    p(&mut stats, "single_use_requested_twice_or_more", own_ops.iter().filter(|o| matches!(o.result, OpResult::Panicked(ref m) if m.contains("more than once"))).count() > 0);
+    p(&mut stats, "receiver_thread_died_holding_value", log.track.iter().any(|e| e.kind == TrackKind::Dropped && e.panicking));
+    p(&mut stats, "clone_panic_fired", own_ops.iter().any(|o| matches!(o.result, OpResult::UserPanicked(UserFault::Clone))));
+    p(&mut stats, "preempted_at_value_slot_lock", res.sched.switched[3] + res.sched.switched[12] > 0);
+    stats.calls = own_ops.len() as u64;
+    stats.nontrivial = own_ops.len() >= 1;
+    Checked { violations, stats, harness_error: None }
 }
